@@ -27,6 +27,13 @@ class Task(object):
             raise ValueError('tid=%d' % self.tid)
         if self.kind == 'code':
             return 10 if self.tid % 2 else 20
+        if self.kind == 'num':
+            # a genuine numeric result whose value happens to equal a status code (a float, not the integer code)
+            v = 10.0 if self.tid % 2 else 20.0
+            if self.tid % 3 == 0:
+                import numpy as np
+                return np.float64(v)
+            return v
         out = {'tid': self.tid, 'payload': b'x' * self.size}
         if self.lnpdf is not None:
             import numpy as np
@@ -47,6 +54,8 @@ def describe(obj):
         return 'exc:%s' % str(obj).replace(' ', '_')
     if isinstance(obj, int):
         return 'code:%d' % obj
+    if isinstance(obj, float):
+        return 'num:%d' % int(obj)
     return 'other:%s' % name
 
 
@@ -87,6 +96,8 @@ def main():
             returned.append(e)
         elif isinstance(r, Exception):
             returned.append({'tid': int(str(r).split('=')[1]), 'type': 'exc', 'cls': type(r).__name__})
+        elif isinstance(r, float):
+            returned.append({'tid': None, 'type': 'num', 'value': float(r)})
         else:
             returned.append({'tid': None, 'type': 'other', 'repr': repr(r)})
     tasks = {t['tid']: t for t in case['tasks']}
